@@ -32,7 +32,20 @@ func main() {
 	keepQueries = *keep
 	thoroughTier = *tier == "thorough"
 	writeLock = *wl
-	initSolver(*work, 16)
+	// every invocation works in a scratch directory of its own (queries, dependency copy, go.mod
+	// overlay): concurrent checks must not see each other's files. -keep uses the base directory.
+	runDir := *work
+	if !*keep {
+		runDir = filepath.Join(*work, fmt.Sprintf("run.%d", os.Getpid()))
+		cleanStaleRuns(*work)
+	}
+	initSolver(runDir, 16)
+	exit := func(code int) {
+		if !*keep {
+			os.RemoveAll(runDir)
+		}
+		os.Exit(code)
+	}
 	switch cmd {
 	case "pkgfiles":
 		w, err := loadWorld(*repo, *contracts)
@@ -98,12 +111,29 @@ func main() {
 			bad += r.NotDischarged
 		}
 		if bad > 0 {
-			os.Exit(1)
+			exit(1)
 		}
 	case "check":
-		os.Exit(runCheck(*repo, *contracts, fs.Args(), *tier, *timeout, *verbose))
+		exit(runCheck(*repo, *contracts, fs.Args(), *tier, *timeout, *verbose))
 	default:
 		fmt.Fprintln(os.Stderr, "unknown command", cmd)
 		os.Exit(2)
+	}
+	exit(0)
+}
+
+// cleanStaleRuns removes scratch directories of runs that ended without cleaning up (older than 2 h).
+func cleanStaleRuns(base string) {
+	ents, err := os.ReadDir(base)
+	if err != nil {
+		return
+	}
+	for _, en := range ents {
+		if !strings.HasPrefix(en.Name(), "run.") {
+			continue
+		}
+		if fi, err := en.Info(); err == nil && time.Since(fi.ModTime()) > 2*time.Hour {
+			os.RemoveAll(filepath.Join(base, en.Name()))
+		}
 	}
 }
